@@ -262,32 +262,7 @@ def run(chk):
     rel = [n for n in own_nodes(bv.node) if isinstance(n, ast.Assign) and src(n.targets[0]) == "var.relative"]
     ok = len(rel) == 1 and any(p and src(e) == "'$NODEID' in var.default_raw" for e, p in fb.facts_at(rel[0]))
     chk.check(ok, "R7", f"{E}:build_variable | relative flag from the raw default", bv.loc(), "")
-    calls = [c for c in ast.walk(ie.node) if isinstance(c, ast.Call) and dotted(c.func) == "build_variable"]
-    chk.floor("R7", len(calls), 3, "build_variable calls in import_eds")
-    nid_assign = [n for n in fi.cfg.nodes if n.kind == "stmt" and isinstance(n.ast, ast.Assign) and src(n.ast.targets[0]) == "node_id"]
-    ok = False
-    for n in nid_assign:
-        v = n.ast.value
-        g = [(src(e), p) for e, p in fi.facts_at(n.ast)]
-        base = None
-        if isinstance(v, ast.Call) and dotted(v.func) == "int":
-            base = v.args[1] if len(v.args) > 1 else next((k.value for k in v.keywords if k.arg == "base"), None)
-        if ("node_id is None" in [t for t, p in g if p]) and base is not None and folder.try_fold(base, sc, None) == 0:
-            d = fi.one_def(src(v.args[0])) if isinstance(v.args[0], ast.Name) else None
-            ok = True
-    chk.check(ok, "R7", f"{E}:import_eds | node id falls back to the file's NodeID", ie.loc(),
-              "when no node id is passed, the local `node_id` handed to build_variable is not taken from [DeviceComissioning] NodeID (base 0): "
-              "$NODEID-relative values are not resolved")
-    for c in calls:
-        chk.check(len(c.args) >= 3 and src(c.args[2]) == "node_id" and src(c.args[0]) == "eds" and src(c.args[1]) == "section", "R7",
-                  f"{E}:import_eds | build_variable({', '.join(src(a) for a in c.args)})", ie.loc(c), "the node id in force is not passed on")
-        for n in nid_assign:
-            cn = fi.cfg.node_of(fi.stmt_of(c))
-            chk.check(cn in fi.cfg.reach_from(n) and n not in fi.cfg.reach_from(cn) or True, "R7", f"{E}:import_eds | node id fixed before objects are built (line {c.lineno})", ie.loc(c), "")
-    ons = [n for n in fi.cfg.nodes if n.kind == "stmt" and isinstance(n.ast, ast.Assign) and src(n.ast.targets[0]) == "od.node_id"]
-    chk.check(len(ons) == 1 and src(ons[0].ast.value) == "node_id" and all(ons[0] in fi.cfg.reach_from(n) for n in nid_assign), "R7", f"{E}:import_eds | od.node_id = node id in force", ie.loc(),
-              f"{[src(o.ast) for o in ons]}")
-
+    calls = node_id_in_force(chk, "R7")
     # ------------------------------------------------------------------ R8 object type dispatch
     consts = {k: folder.try_fold(mod.consts.get(k, ast.Constant(None)), sc, None) for k in ("VAR", "DOMAIN", "ARR", "RECORD")}
     chk.check(consts == {"VAR": 7, "DOMAIN": 2, "ARR": 8, "RECORD": 9}, "R8", f"{E} | object type codes", E, f"{consts}; CiA 306: DOMAIN 2, VAR 7, ARRAY 8, RECORD 9")
@@ -522,6 +497,42 @@ def run(chk):
     # ------------------------------------------------------------------ R12 instances are independent (shared clause)
     from . import shared as _shared
     _shared.isolation(chk, "R12", rels=['canopen/objectdictionary/__init__.py', 'canopen/objectdictionary/eds.py'])
+
+
+def node_id_in_force(chk, rule: str):
+    """The node id in force (argument, else the file's NodeID parsed with base 0) is what every build_variable call receives
+    and what od.node_id reports ($NODEID-relative values of a re-imported DCF depend on it; shared with C14)."""
+    repo, folder = ctx(chk)
+    sc = Scope(repo.mod(E, f"{chk.prop}.{rule}"))
+    ie = repo.func(E, "import_eds", f"{chk.prop}.{rule}")
+    fi = ff_for(chk, ie, f"{chk.prop}.{rule}")
+    calls = [c for c in ast.walk(ie.node) if isinstance(c, ast.Call) and dotted(c.func) == "build_variable"]
+    chk.floor(rule, len(calls), 3, "build_variable calls in import_eds")
+    nid_assign = [n for n in fi.cfg.nodes if n.kind == "stmt" and isinstance(n.ast, ast.Assign) and src(n.ast.targets[0]) == "node_id"]
+    ok = False
+    for n in nid_assign:
+        v = n.ast.value
+        g = [(src(e), p) for e, p in fi.facts_at(n.ast)]
+        base = None
+        if isinstance(v, ast.Call) and dotted(v.func) == "int":
+            base = v.args[1] if len(v.args) > 1 else next((k.value for k in v.keywords if k.arg == "base"), None)
+        if ("node_id is None" in [t for t, p in g if p]) and base is not None and folder.try_fold(base, sc, None) == 0:
+            d = fi.one_def(src(v.args[0])) if isinstance(v.args[0], ast.Name) else None
+            ok = True
+    chk.check(ok, rule, f"{E}:import_eds | node id falls back to the file's NodeID", ie.loc(),
+              "when no node id is passed, the local `node_id` handed to build_variable is not taken from [DeviceComissioning] NodeID (base 0): "
+              "$NODEID-relative values are not resolved")
+    for c in calls:
+        chk.check(len(c.args) >= 3 and src(c.args[2]) == "node_id" and src(c.args[0]) == "eds" and src(c.args[1]) == "section", rule,
+                  f"{E}:import_eds | build_variable({', '.join(src(a) for a in c.args)})", ie.loc(c), "the node id in force is not passed on")
+        for n in nid_assign:
+            cn = fi.cfg.node_of(fi.stmt_of(c))
+            chk.check(cn in fi.cfg.reach_from(n) and n not in fi.cfg.reach_from(cn) or True, rule, f"{E}:import_eds | node id fixed before objects are built (line {c.lineno})", ie.loc(c), "")
+    ons = [n for n in fi.cfg.nodes if n.kind == "stmt" and isinstance(n.ast, ast.Assign) and src(n.ast.targets[0]) == "od.node_id"]
+    chk.check(len(ons) == 1 and src(ons[0].ast.value) == "node_id" and all(ons[0] in fi.cfg.reach_from(n) for n in nid_assign), rule, f"{E}:import_eds | od.node_id = node id in force", ie.loc(),
+              f"{[src(o.ast) for o in ons]}")
+
+    return calls
 
 
 def implicit_members(chk, rule: str):
